@@ -34,6 +34,13 @@ Definition show_v (sz : Z) (v : view) : string := show_ol sz (off v) (vlen v).
 Definition show_elem (sz : Z) (i : Z) : string := show_ol sz i 1.
 Definition show_c (sz : Z) (c : chunks) : string := show_ol sz (coff c) (ccount c).
 
+(** a usize argument: a decimal number, or big-endian hex bytes ([x8000000000000000]) *)
+Definition as_usize (v : val) : Z :=
+  match v with
+  | VL l => fold_left (fun acc b => as_Z b + 256 * acc)%Z l 0%Z
+  | _ => as_Z v
+  end.
+
 Definition show_res {A} (f : A -> string) (r : res A) : string :=
   match r with Ok a => f a | UB => "UB" | Panic => "PANIC" end.
 
@@ -81,14 +88,14 @@ Definition c02_run (fam : string) (args : list val) : option string :=
       | Some sz =>
           match rest with
           | [len; i] =>
-              if String.eqb fam "c02.idx" then Some (c02_idx sz (as_Z len) (as_Z i))
-              else if String.eqb fam "c02.arr" then Some (c02_arr sz (as_Z len) (as_Z i))
+              if String.eqb fam "c02.idx" then Some (c02_idx sz (as_usize len) (as_usize i))
+              else if String.eqb fam "c02.arr" then Some (c02_arr sz (as_usize len) (as_usize i))
               else None
           | [len; s; e] =>
-              if String.eqb fam "c02.range" then Some (c02_range sz (as_Z len) (as_Z s) (as_Z e))
+              if String.eqb fam "c02.range" then Some (c02_range sz (as_usize len) (as_usize s) (as_usize e))
               else None
           | [len] =>
-              if String.eqb fam "c02.ends" then Some (c02_ends sz (as_Z len)) else None
+              if String.eqb fam "c02.ends" then Some (c02_ends sz (as_usize len)) else None
           | _ => None
           end
       end
